@@ -80,6 +80,21 @@ def value_signature(out, rec):
         rec["op"], rel, ">0" if out["status_replies_to_reads"] else "=0", ">0" if out["short_replies_inside_file"] else "=0")
 
 
+def _caller_is_blocked_sender(out):
+    """The caller wants to SEND (a synchronous READ it fell back to) and cannot: either it sits in the send
+    loop on the full request pipe itself, or - since requests are written one at a time (SFTPClient._send_lock,
+    repo e58b5f8) - it waits for its turn behind the prefetch thread, which sits in that send loop."""
+    chain = out.get("chain") or []
+    if chain[-1:] == ["_write_all"]:
+        return True
+    if chain[-1:] == ["_async_request"]:
+        st = out.get("stacks") or {}
+        mine = [v for k, v in st.items() if "worker" in k]
+        others = [v for k, v in st.items() if "worker" not in k]
+        return any("with self._send_lock" in v for v in mine) and any("_write_all" in v for v in others)
+    return False
+
+
 def run(ctx):
     import logging
 
@@ -141,7 +156,7 @@ def run(ctx):
         if out["status"] == "watchdog":
             ctx.inconclusive("case exceeded its cap without the blocked-at-quiescence evidence: %r" % (out.get("chain"),))
             continue
-        if out["status"] == "hang" and out.get("kind") == "blocked_at_quiescence" and out["chain"][-1:] == ["_write_all"]:
+        if out["status"] == "hang" and out.get("kind") == "blocked_at_quiescence" and _caller_is_blocked_sender(out):
             # The caller itself is a sender stuck on the full request pipe (it fell back to a synchronous READ while
             # answers nobody reads block the server): the capacity deadlock of any pipelined protocol over windows of
             # a few dozen bytes, which the statement's transports cannot produce.  Outside this stratum's claim
